@@ -524,6 +524,9 @@ double Integrate_MC_Vegas(std::function<double(std::vector<double>&, const doubl
 		}
 		for(j = 0; j < ndim; j++)
 		{
+			// Without any signal along this axis (all sampled values vanish) there is nothing to refine.
+			if(dt[j] <= 0.0)
+				continue;
 			rc = 0.0;
 			for(i = 0; i < nd; i++)
 			{
